@@ -54,9 +54,10 @@ class C10(SessionCheck):
                                          f"raised although none of its type is subscribed"))
                 if ok:
                     kinds.append(k)
-                    subs.append(o[1])
+                    if not (len(ev) > 2 and ev[2] == 1):
+                        subs.append(o[1])
                     if k == 0:
-                        hist_ok[o[1]] = [] if not accepted else None
+                        hist_ok[o[1]] = [] if (not accepted and not (len(ev) > 2 and ev[2] == 1)) else None
             elif t == 6:
                 k = ev[1]
                 allowed = set(ev[2][0]) if len(ev) > 2 and ev[2] else None
